@@ -54,6 +54,7 @@ func runOp(st *State, line string) (res string) {
 	if !ok {
 		return "unknown-op"
 	}
+	typeDefTrim()
 	res = f(st, toks[1:])
 	if len(retainPending) > 0 { // byte slices the library handed out during this op (retainNote)
 		res += retainCheck(retainPending...)
